@@ -240,7 +240,7 @@ def judge_integer_text(M, p, variant, a, b, text):
                      (variant, a, b, text, N, where, text[exp[0]:exp[1]], [text[x:y] for x, y in overl]), 'int-token')
 
 
-def boundary_ranges(rnd, n):
+def boundary_ranges(rnd, n, include_big=True):
     """ranges from all digit-length combinations 1..6 x boundary shapes"""
     out = [(0, 0), (0, 9), (0, 2147483647), (1, 1), (9, 10), (0, 1), (5, 1000), (2, 6070), (99, 100), (100, 999), (10, 10)]
     for la in range(1, 7):
@@ -268,6 +268,8 @@ def boundary_ranges(rnd, n):
         for e in (10 ** k - 1, 10 ** k - 2, 10 ** k, 10 ** k + 1):
             big.append((rnd.choice([0, 5, 10, 99, 10 ** (k - 1) + 234, 10 ** (k - 2)]), e))
     big += [(0, 2 ** 31), (1, 2 ** 32 - 1), (7, 2 ** 53), (2 ** 31 - 1, 2 ** 31), (10 ** 15 - 1, 10 ** 15 - 1)]
+    if not include_big:
+        return out[:n]
     return big + out[:max(n - len(big), 0)]
 
 
